@@ -18,6 +18,110 @@ EXPLANATION = ("Every overflow check, unwrap/expect and cast of the position, le
                "states within the bounds. Lexer steps additionally run under Kani (panic freedom, progress).")
 
 
+UNIFY = "src/check/constrain/unify/"
+MAXQ = 1 << 40      # constraints in a queue / `total` counter
+
+
+def crash_family(rp):
+    """Programs that must yield output or diagnostics - never a panic, abort or hang - whatever the unifier's queue does."""
+    tup = ", ".join(str(i) for i in range(1, 31))
+    progs = [
+        ("reinsert-after-undercounted-pushes", f"def t := ({tup})\nprint(t)\nprint(t)\nprint(t)\nprint(t)\ndef f := \\x => x + 1"),
+        ("reinsert-untyped-lambda-arith", "def f := \\x => x + 1"),
+        ("reinsert-untyped-lambda-access", "def f := \\x => x.foo()"),
+        ("reinsert-then-resolve", "class A\n    def v: Int := 1\ndef a := A()\ndef b := a.v + 1\nprint(b)"),
+        ("tuple-print", "print((1, 2, 3, 4, 5, 6, 7, 8))\ndef f := \\x => x + 1"),
+    ]
+    bad = []
+    for role, src in progs:
+        st, out = rp.transpile(src)
+        if st not in ("OK", "ERR"):
+            bad.append({"role": role, "src": src, "status": st, "out": out[:200]})
+    return len(progs), bad
+
+
+def ob_unify_arith(run, mir, rp):
+    """Queue arithmetic of the unifier: the progress counters are usize differences of `total` and the queue length."""
+    def replay(model):
+        n, bad = crash_family(rp)
+        if bad:
+            b = bad[0]
+            return {"reproduced": True, "role": f"unify-arith:{b['role']}", "detail": f"program {b['src'][:160]!r}: {b['status']} {b['out']}"}
+        return {"reproduced": False, "detail": f"{n} programs end with output or diagnostics"}
+    for oid, file, name, nargs in (("unify-reinsert-arith", UNIFY + "link.rs", "reinsert", 3),
+                                   ("unify-link-arith", UNIFY + "link.rs", "unify_link", 4),
+                                   ("unify-type-arith", UNIFY + "ty.rs", "unify_type", 5)):
+        try:
+            fn = e2.find1(mir, file=file, name=name)
+            ex = Exec(mir, max_paths=20000)
+            st = State()
+            total = z3.BitVec("total", 64)
+            args = []
+            for an, aty in fn.args:
+                t = aty.strip()
+                if t == "usize":
+                    args.append(total)
+                else:
+                    args.append(Ref(ex.new_cell(st, Opq(z3.Const(f"arg{an}", Val), t.lstrip("&").replace("mut ", "").strip()))))
+            ends = e2.run_kernel(run, ex, fn, args, st)
+            lens = [ev["ret"] for p in ends for ev in p.events if ev["name"].endswith("Constraints::len")]
+            pre = [z3.ULE(total, MAXQ)] + [z3.ULE(l, MAXQ) for l in lens if z3.is_bv(l)]
+            names = {"total": total}
+            for i, l in enumerate(lens[:1]):
+                if z3.is_bv(l):
+                    names["queue.len"] = l
+            e2.no_panic(run, oid, f"{name}: no arithmetic panic for any queue length and `total` <= 2^40 (the queue may be longer "
+                        "than `total`: pushes are not all counted)", ex, ends, pre, names, replay, [name])
+        except Unsupported as e:
+            run.ob(oid, "E2", f"{name} encodable").inconclusive(str(e))
+
+
+def ob_reinsert_once(run, mir, rp):
+    """Termination mechanism of unification: a constraint goes back into the queue at most once."""
+    def replay(model):
+        n, bad = crash_family(rp)
+        if bad:
+            b = bad[0]
+            return {"reproduced": True, "role": f"reinsert-once:{b['role']}", "detail": f"program {b['src'][:160]!r}: {b['status']} {b['out']}"}
+        return {"reproduced": False, "detail": f"{n} programs end with output or diagnostics"}
+    ob = run.ob("unify-reinsert-once", "E2", "Constraints::reinsert refuses (Err) exactly the constraints that carry the flag, whatever "
+                "their other fields are, and queues the flagged copy otherwise; Constraint::flag sets the flag", ["Constraints::reinsert", "Constraint::flag"])
+    try:
+        ITER = "src/check/constrain/constraint/iterator.rs"
+        CMOD = "src/check/constrain/constraint/mod.rs"
+        fn = e2.find1(mir, file=ITER, impl="impl Constraints", name="reinsert")
+        ex = Exec(mir, max_paths=5000, inline=[r"Constraint::flag$"])
+        st = State()
+        cv, vals = e2.sym_struct(CMOD, "Constraint", "c")
+        selfv = Ref(ex.new_cell(st, Opq(z3.Const("queue", Val), "Constraints")))
+        ends = e2.run_kernel(run, ex, fn, [selfv, Ref(ex.new_cell(st, cv))], st)
+        claims = []
+        for p in ends:
+            if p.kind != "return":
+                raise Unsupported(f"unexpected path end {p}")
+            c = conj(p.cond)
+            kind = e2.result_kind(p)
+            if kind is None:
+                raise Unsupported(f"result {p.ret}")
+            pushes = [ev for ev in p.events if ev["name"].endswith("push_back")]
+            if kind == "Err":
+                claims.append(z3.Implies(c, z3.And(vals["is_flag"], z3.BoolVal(not pushes))))
+            else:
+                ok = z3.BoolVal(False)
+                if len(pushes) == 1:
+                    item = pushes[0]["args"][1]
+                    item = ex.read_ref(p.state, item) if isinstance(item, Ref) else item
+                    if isinstance(item, Agg) and item.names and "is_flag" in item.names:
+                        fl = item.fields[list(item.names).index("is_flag")]
+                        same = [ex.to_val(p.state, a) == ex.to_val(p.state, vals[n]) for n, a in zip(item.names, item.fields)
+                                if n not in ("is_flag",)]
+                        ok = z3.And(fl == z3.BoolVal(True), *same)
+                claims.append(z3.Implies(c, z3.And(z3.Not(vals["is_flag"]), ok)))
+        e2.prove(run, ob, ex, [], conj(claims), {"constraint.is_flag": vals["is_flag"], "constraint.is_sub": vals["is_sub"]}, replay)
+    except Unsupported as e:
+        ob.inconclusive(str(e))
+
+
 def run(run):
     mir = e2.load_mir(run)
     rp = common.Replay()
@@ -133,6 +237,8 @@ def run(run):
         lexstep.obligations(run, mir, rp, C18.lexstep_replay(rp), want=("panic",))
     except Unsupported as e:
         run.ob("lexer-step-no-panic", "E2", "into_tokens encodable").inconclusive(str(e))
+    ob_unify_arith(run, mir, rp)
+    ob_reinsert_once(run, mir, rp)
     if os.environ.get("VERIF_NO_KANI") != "1":
         import e1
         names = list(e1.QUICK_B) + ["step_other_char"]
